@@ -192,6 +192,33 @@ func main() {
 			}
 		}
 	}
+	// error paths must leave nothing behind: an encode into a writer that fails after k bytes (every k), then a
+	// probe segment encoded with the same codec and with a fresh one must come out as it does alone
+	for name, mk := range map[string]func() segment.Codec{"none": func() segment.Codec { return segment.NewCodec() }, "lz4": func() segment.Codec { return segment.NewCodecWithCompression(lz4.Compressor{}) }} {
+		probeSeg := func() *segment.Segment {
+			return &segment.Segment{Header: &segment.Header{IsSelfContained: true}, Payload: &segment.Payload{UncompressedData: gen.Payload(200, "p7")}}
+		}
+		want := &bytes.Buffer{}
+		if err := mk().EncodeSegment(probeSeg(), want); err != nil {
+			continue
+		}
+		for _, class := range []string{"p7", "random"} {
+			victim := gen.Payload(120, class)
+			full := &bytes.Buffer{}
+			_ = mk().EncodeSegment(&segment.Segment{Header: &segment.Header{IsSelfContained: false}, Payload: &segment.Payload{UncompressedData: victim}}, full)
+			for k := 0; k <= full.Len(); k++ {
+				evals++
+				codec := mk()
+				_ = codec.EncodeSegment(&segment.Segment{Header: &segment.Header{IsSelfContained: false}, Payload: &segment.Payload{UncompressedData: append([]byte{}, victim...)}}, &failingWriter{left: k})
+				for which, pc := range map[string]segment.Codec{"same codec": codec, "fresh codec": mk()} {
+					got := &bytes.Buffer{}
+					if err := pc.EncodeSegment(probeSeg(), got); err != nil || !bytes.Equal(got.Bytes(), want.Bytes()) {
+						c.Violation(map[string]string{"kind": "history-leftover", "codec": name}, fmt.Sprintf("after an EncodeSegment (%s payload) that failed at byte %d, the next segment encoded with the %s differs from the same segment encoded alone (err=%v, %d vs %d bytes)", class, k, which, err, got.Len(), want.Len()), k)
+					}
+				}
+			}
+		}
+	}
 	// refusal of larger payloads
 	for _, n := range []int{131072, 131073, 262144} {
 		for _, codec := range []segment.Codec{plain, lz} {
@@ -230,6 +257,19 @@ func firstDiffPart(got, want []byte, hdr, n int) string {
 		}
 	}
 	return "length"
+}
+
+// failingWriter accepts `left` bytes, then fails.
+type failingWriter struct{ left int }
+
+func (w *failingWriter) Write(p []byte) (int, error) {
+	if len(p) <= w.left {
+		w.left -= len(p)
+		return len(p), nil
+	}
+	n := w.left
+	w.left = 0
+	return n, fmt.Errorf("injected write failure")
 }
 
 func checkDecode(c *vlib.Check, codec segment.Codec, name string, wire, payload []byte, sc bool, counter *int64) {
